@@ -47,7 +47,10 @@ M == INSTANCE TMMerkle WITH MaxLeaves <- 0, Weak_NoProofIndexBinding <- FALSE,
 
 Nil == "nil"
 I2S(i) == ToString(i)
-MapSeq(s, Op(_)) == [i \in 1..Len(s) |-> Op(s[i])]
+\* TLC keeps [i \in S |-> e] as an unevaluated closure that is RE-evaluated at every application;
+\* concatenating with << >> turns it into an explicit tuple, once.
+Force(s) == s \o << >>
+MapSeq(s, Op(_)) == Force([i \in 1..Len(s) |-> Op(s[i])])
 RECURSIVE Join(_, _)
 Join(s, sep) == IF Len(s) = 0 THEN "" ELSE IF Len(s) = 1 THEN s[1] ELSE s[1] \o sep \o Join(Tail(s), sep)
 RECURSIVE SumSeq(_)
@@ -90,9 +93,9 @@ HeaderHash(C, H) ==
 \* the application's state commitment: a two-level "simple map" (multi-store -> store ->
 \* key) whose leaves are what merkle.ValueOp.Run hashes: KVPair(key, sha256(value))
 KVTerm(k, v)    == "K(" \o k \o ",V(" \o v \o "))"
-KVLeaves(kvs)   == [i \in 1..Len(kvs) |-> KVTerm(kvs[i].k, kvs[i].v)]
+KVLeaves(kvs)   == Force([i \in 1..Len(kvs) |-> KVTerm(kvs[i].k, kvs[i].v)])
 StoreRoot(kvs)  == M!Root(KVLeaves(kvs))
-AppLeaves(sts)  == [i \in 1..Len(sts) |-> KVTerm(sts[i].store, StoreRoot(sts[i].kvs))]
+AppLeaves(sts)  == Force([i \in 1..Len(sts) |-> KVTerm(sts[i].store, StoreRoot(sts[i].kvs))])
 AppHashOf(sts)  == M!Root(AppLeaves(sts))
 
 \* crypto/merkle/proof.go ProofFromProto / Proof.ValidateBasic
@@ -144,25 +147,37 @@ ValLess(a, b) == a.power > b.power \/ (a.power = b.power /\ ValRank(a.addr) < Va
 ApplyValUpd(vals, upd) ==
   LET changed(pk) == \E i \in 1..Len(upd) : upd[i].pk = pk
       kept  == SelectSeq(vals, LAMBDA v : ~changed(v.pk))
-      fresh == [i \in 1..Len(upd) |-> [addr |-> AddrOfPk(upd[i].pk), pk |-> upd[i].pk, power |-> upd[i].power, prio |-> 0]]
+      fresh == Force([i \in 1..Len(upd) |-> [addr |-> AddrOfPk(upd[i].pk), pk |-> upd[i].pk, power |-> upd[i].power, prio |-> 0]])
       all   == kept \o SelectSeq(fresh, LAMBDA v : v.power > 0)
   IN SortSeq(all, ValLess)
 ApplyParUpd(p, upd) == IF Len(upd) = 0 THEN p ELSE [p EXCEPT !.max_bytes = upd[1].max_bytes, !.max_gas = upd[1].max_gas]
 SetKV(sts, w) == IF Len(w) = 0 THEN sts ELSE
-  [i \in 1..Len(sts) |-> IF sts[i].store # w[1] THEN sts[i] ELSE
-     [sts[i] EXCEPT !.kvs = [j \in 1..Len(sts[i].kvs) |-> IF sts[i].kvs[j].k = w[2] THEN [k |-> w[2], v |-> w[3]] ELSE sts[i].kvs[j]]]]
+  Force([i \in 1..Len(sts) |-> IF sts[i].store # w[1] THEN sts[i] ELSE
+     [sts[i] EXCEPT !.kvs = Force([j \in 1..Len(sts[i].kvs) |-> IF sts[i].kvs[j].k = w[2] THEN [k |-> w[2], v |-> w[3]] ELSE sts[i].kvs[j]])]])
 RECURSIVE ApplyTxs(_, _, _)
 ApplyTxs(D, sts, txs) == IF Len(txs) = 0 THEN sts ELSE
   LET t == TxInfoOf(D, txs[1]) IN ApplyTxs(D, IF t.code = 0 THEN SetKV(sts, t.set) ELSE sts, Tail(txs))
 
+\* Vals[1..m], Pars[1..m], KV after block 0..m-1 -- built as explicit sequences (see Force)
+RECURSIVE ValsUpTo(_, _)
+ValsUpTo(D, m) == IF m = 0 THEN << >> ELSE
+  LET p == ValsUpTo(D, m - 1) IN Append(p, IF m <= 2 THEN D.vals0 ELSE ApplyValUpd(p[m - 1], D.blocks[m - 2].valupd))
+RECURSIVE ParsUpTo(_, _)
+ParsUpTo(D, m) == IF m = 0 THEN << >> ELSE
+  LET p == ParsUpTo(D, m - 1) IN Append(p, IF m = 1 THEN D.params0 ELSE ApplyParUpd(p[m - 1], D.blocks[m - 1].parupd))
+RECURSIVE KVUpTo(_, _)     \* element h+1 = application state after block h
+KVUpTo(D, m) == IF m = 0 THEN <<D.kv0>> ELSE
+  LET p == KVUpTo(D, m - 1) IN Append(p, ApplyTxs(D, p[m], D.blocks[m].txs))
+
 ModelChain(D) ==
   LET n == Len(D.blocks)
-      Vals[h \in 1..(n + 2)]  == IF h <= 2 THEN D.vals0 ELSE ApplyValUpd(Vals[h - 1], D.blocks[h - 2].valupd)
-      Pars[h \in 1..(n + 1)]  == IF h = 1 THEN D.params0 ELSE ApplyParUpd(Pars[h - 1], D.blocks[h - 1].parupd)
-      KV[h \in 0..n]          == IF h = 0 THEN D.kv0 ELSE ApplyTxs(D, KV[h - 1], D.blocks[h].txs)
-      Res(h)   == [i \in 1..Len(D.blocks[h].txs) |-> ResultOf(D, D.blocks[h].txs[i])]
-      Sigs(h)  == [i \in 1..Len(Vals[h]) |-> [flag |-> 2, addr |-> Vals[h][i].addr, ts |-> 1000 + h,
-                                              sig |-> "sg" \o I2S(h) \o Vals[h][i].addr]]
+      Vals == ValsUpTo(D, n + 2)
+      Pars == ParsUpTo(D, n + 1)
+      KVs  == KVUpTo(D, n)
+      KV(h)    == KVs[h + 1]
+      Res(h)   == Force([i \in 1..Len(D.blocks[h].txs) |-> ResultOf(D, D.blocks[h].txs[i])])
+      Sigs(h)  == Force([i \in 1..Len(Vals[h]) |-> [flag |-> 2, addr |-> Vals[h][i].addr, ts |-> 1000 + h,
+                                                    sig |-> "sg" \o I2S(h) \o Vals[h][i].addr]])
       Bid(h)   == [hash |-> "HH" \o I2S(h), pst |-> 1, psh |-> "ps" \o I2S(h)]
       Cmt(h)   == IF h = 0 THEN [height |-> 0, round |-> 0, bid |-> ZeroBid, sigs |-> << >>]
                   ELSE [height |-> h, round |-> 0, bid |-> Bid(h), sigs |-> Sigs(h)]
@@ -170,14 +185,14 @@ ModelChain(D) ==
                    last |-> IF h = 1 THEN ZeroBid ELSE Bid(h - 1),
                    lch |-> CommitHash(Cmt(h - 1).sigs), dh |-> DataHashOf(D.blocks[h].txs),
                    vh |-> ValsHash(Vals[h]), nvh |-> ValsHash(Vals[h + 1]), ch |-> ParamsHash(Pars[h]),
-                   ah |-> AppHashOf(KV[h - 1]), lrh |-> IF h = 1 THEN "" ELSE ResultsHash(Res(h - 1)),
+                   ah |-> AppHashOf(KV(h - 1)), lrh |-> IF h = 1 THEN "" ELSE ResultsHash(Res(h - 1)),
                    eh |-> "E()", prop |-> Vals[h][1].addr]
   IN [id |-> D.id, tip |-> n,
-      blocks |-> [h \in 1..n |-> [header |-> Hdr(h), bid |-> Bid(h), txs |-> D.blocks[h].txs, evidence |-> << >>,
+      blocks |-> Force([h \in 1..n |-> [header |-> Hdr(h), bid |-> Bid(h), txs |-> D.blocks[h].txs, evidence |-> << >>,
                                   last_commit |-> Cmt(h - 1), commit |-> Cmt(h), vals |-> Vals[h],
                                   params |-> Pars[h], results |-> Res(h), bbe |-> D.blocks[h].bbe,
                                   ebe |-> D.blocks[h].ebe, valupd |-> D.blocks[h].valupd,
-                                  parupd |-> D.blocks[h].parupd, kv |-> KV[h], size |-> 0]]]
+                                  parupd |-> D.blocks[h].parupd, kv |-> KV(h), size |-> 0]])]
 
 \* internal coherence of a chain value (used on the OBSERVED chain: validates this hash
 \* model and the harness' naming against the real code's hashes)
@@ -237,7 +252,7 @@ HonestResults(C, h) == LET b == C.blocks[h] IN
   [height |-> h, results |-> b.results, bbe |-> b.bbe, ebe |-> b.ebe, valupd |-> b.valupd, parupd |-> b.parupd]
 HonestParams(C, h) == [height |-> h, params |-> C.blocks[h].params]
 HonestMeta(C, h) == LET b == C.blocks[h] IN [block_id |-> b.bid, header |-> b.header, num_txs |-> Len(b.txs), size |-> b.size]
-HonestInfo(C, lo, hi) == [last_height |-> C.tip, metas |-> [i \in 1..(hi - lo + 1) |-> HonestMeta(C, hi - i + 1)]]
+HonestInfo(C, lo, hi) == [last_height |-> C.tip, metas |-> Force([i \in 1..(hi - lo + 1) |-> HonestMeta(C, hi - i + 1)])]
 \* what the light client's primary serves for height h (light/provider)
 HonestLightBlock(C, h) == LET b == C.blocks[h] IN [header |-> b.header, commit |-> b.commit, vals |-> b.vals]
 
@@ -255,6 +270,14 @@ Honest(C, k, a) ==
 PerPage(per) == IF per < 1 THEN 30 ELSE IF per > 100 THEN 100 ELSE per
 Min(x, y) == IF x < y THEN x ELSE y
 PageOK(a, total) == LET pages == IF total = 0 THEN 1 ELSE ((total - 1) \div PerPage(a.per)) + 1 IN a.page = 0 \/ a.page \in 1..pages
+\* a request an honest node can answer AND whose proving header exists on the (static) chain
+ValidArg(C, k, a) ==
+  CASE k \in {"Block", "BlockByHash", "ConsensusParams", "Commit"} -> a.h \in 1..C.tip
+    [] k = "Tx"             -> a.h \in 1..C.tip /\ a.i >= 0 /\ a.i < Len(C.blocks[a.h].txs)
+    [] k = "BlockResults"   -> a.h \in 1..(C.tip - 1)
+    [] k = "ABCIQuery"      -> a.h \in 1..(C.tip - 1) /\ \E i \in 1..Len(C.blocks[a.h].kv) : C.blocks[a.h].kv[i].store = a.store
+    [] k = "BlockchainInfo" -> a.lo >= 1 /\ a.lo <= a.hi /\ a.hi <= C.tip /\ a.hi - a.lo <= 2
+    [] k = "Validators"     -> a.h \in 1..C.tip /\ PageOK(a, Len(C.blocks[a.h].vals))
 \* honest requests whose proving header exists on the (static) chain
 HonestArgs(C, k) ==
   LET H == 1..C.tip
@@ -305,7 +328,7 @@ NewVal(how, old, oth) ==
     [] how = "dup"    -> Append(old, Last(old))
     [] how = "addh"   -> Append(old, "X1")
     [] how = "adds"   -> Append(old, "zz")
-    [] how = "swap"   -> [i \in 1..Len(old) |-> IF i = 1 THEN old[2] ELSE IF i = 2 THEN old[1] ELSE old[i]]
+    [] how = "swap"   -> Force([i \in 1..Len(old) |-> IF i = 1 THEN old[2] ELSE IF i = 2 THEN old[1] ELSE old[i]])
     [] how = "clear"  -> << >>
 
 \* replacements tried for a field of a given type
@@ -318,6 +341,7 @@ Hows(ty, old) ==
     [] ty = "hseq" -> (IF Len(old) > 0 THEN {"drop"} ELSE {}) \cup {"addh"} \cup (IF Len(old) > 1 THEN {"swap"} ELSE {})
     [] ty = "sseq" -> (IF Len(old) > 0 THEN {"drop"} ELSE {}) \cup {"adds"} \cup (IF Len(old) > 1 THEN {"swap"} ELSE {})
     [] ty = "rseq" -> (IF Len(old) > 0 THEN {"drop", "dup"} ELSE {}) \cup (IF Len(old) > 1 THEN {"swap"} ELSE {})
+    [] ty = "opt"  -> IF Len(old) > 0 THEN {"drop"} ELSE {}          \* a nullable record
 
 P(path, ty) == [path |-> path, ty |-> ty]
 Pre(pfx, set) == {[path |-> pfx \o x.path, ty |-> x.ty] : x \in set}
@@ -358,7 +382,7 @@ Fields(k, r) ==
          \cup UNION {Pre(<<"ops", i>>, OpFields) : i \in Ix(Len(r.ops))}
     [] k = "BlockResults" ->
          {P(<<"height">>, "int"), P(<<"results">>, "rseq"), P(<<"bbe">>, "sseq"), P(<<"ebe">>, "sseq"),
-          P(<<"valupd">>, "rseq"), P(<<"parupd">>, "rseq")}
+          P(<<"valupd">>, "rseq"), P(<<"parupd">>, "opt")}
          \cup UNION {Pre(<<"results", i>>, ResultFields) : i \in Ix(Len(r.results))}
          \cup UNION {{P(<<"valupd", i, "power">>, "int"), P(<<"valupd", i, "pk">>, "id")} : i \in Ix(Len(r.valupd))}
          \cup UNION {{P(<<"parupd", i, "max_bytes">>, "int"), P(<<"parupd", i, "max_gas">>, "int")} : i \in Ix(Len(r.parupd))}
@@ -404,7 +428,7 @@ OtherArg(a, oh) == IF a.lo = 0 THEN [a EXCEPT !.h = oh] ELSE [a EXCEPT !.lo = oh
 ApplyEdit(C, k, a, r, e) ==
   LET old == GetPath(r, e.path)
       oa  == OtherArg(a, e.oh)
-      oth == IF e.how = "other" /\ oa \in HonestArgs(C, k) /\ HasPath(Honest(C, k, oa), e.path)
+      oth == IF e.how = "other" /\ ValidArg(C, k, oa) /\ HasPath(Honest(C, k, oa), e.path)
              THEN GetPath(Honest(C, k, oa), e.path) ELSE old
   IN SetPath(r, e.path, NewVal(e.how, old, oth))
 RECURSIVE ApplyEdits(_, _, _, _, _, _)
@@ -467,14 +491,34 @@ LightBlockBasic(C, lb) ==
   /\ lb.commit.bid.hash = HeaderHash(C, lb.header)
   /\ Len(lb.vals) > 0 /\ \A i \in 1..Len(lb.vals) : ValBasic(lb.vals[i])
   /\ Weak_ValsNotHashed \/ ValsHash(lb.vals) = lb.header.vh
+\* types/validator_set.go VerifyCommitLightTrusting (non-adjacent steps, light/verifier.go VerifyNonAdjacent):
+\* signatures are attributed to TRUSTED validators by the ADDRESS in the CommitSig.  TRUE = an error
+\* is met before 1/3 of the trusted power is tallied: a signature that does not verify under the
+\* key of the trusted validator carrying that address, or an address seen twice.  Too little trusted
+\* power is no error here: the client bisects down to adjacent steps, which do not run this check.
+RECURSIVE VCTrustErr(_, _, _, _, _, _)
+VCTrustErr(C, tvals, lb, i, tallied, seen) ==
+  IF 3 * tallied > TotalPower(tvals) \/ i > Len(lb.commit.sigs) THEN FALSE
+  ELSE LET sg == lb.commit.sigs[i]
+           js == {j \in 1..Len(tvals) : tvals[j].addr = sg.addr}
+       IN IF sg.flag # 2 \/ js = {} THEN VCTrustErr(C, tvals, lb, i + 1, tallied, seen)
+          ELSE IF sg.addr \in seen THEN TRUE
+          ELSE LET tv == tvals[CHOOSE j \in js : TRUE]
+                   h  == lb.header.height IN
+               IF ~(SigOK(C, lb, i) /\ tv.pk = C.blocks[h].vals[i].pk) THEN TRUE
+               ELSE VCTrustErr(C, tvals, lb, i + 1, tallied + tv.power, seen \cup {sg.addr})
+
 \* verification of lb (served for height h) against the store, then witness cross-check
 \* (light/detector.go: the witness serves the honest header; hashes must agree)
-LCVerify(C, h, lb) ==
+LCVerify(C, have, h, lb) ==
   IF h < 1 \/ h > C.tip THEN "lc:height"
   ELSE IF ~LightBlockBasic(C, lb) \/ lb.header.height # h THEN "lc:basic"
   \* named deviation: Commit.ValidateBasic does not validate the block id; computing the vote sign
   \* bytes panics on a malformed one (types/canonical.go CanonicalizeBlockID) -- the call dies
   ELSE IF ~BidBasic(lb.commit.bid) THEN "lc:panic"
+  ELSE LET below == {t \in have : t < h}
+           base  == CHOOSE t \in below : \A u \in below : u <= t IN
+       IF below # {} /\ base # h - 1 /\ base \in 1..C.tip /\ VCTrustErr(C, C.blocks[base].vals, lb, 1, 0, {}) THEN "lc:commit"
   ELSE IF Len(lb.commit.sigs) # Len(lb.vals) \/ ~VCLight(C, lb, 1, 0) THEN "lc:commit"
   ELSE IF HeaderHash(C, lb.header) # C.blocks[h].bid.hash THEN "lc:witness"
   ELSE "ok"
@@ -482,10 +526,12 @@ LCVerify(C, h, lb) ==
 \* else the verified block of the primary.  sent = the light block the primary serves.
 LCGet(C, have, h, sent) ==
   IF h \in have /\ h \in 1..C.tip THEN [st |-> "ok", lb |-> HonestLightBlock(C, h)]
-  ELSE LET st == LCVerify(C, h, sent) IN [st |-> st, lb |-> sent]
+  ELSE LET st == LCVerify(C, have, h, sent) IN [st |-> st, lb |-> sent]
 \* for backend kinds the primary is honest
 LCHonest(C, have, h) == IF h \in 1..C.tip THEN LCGet(C, have, h, HonestLightBlock(C, h)) ELSE [st |-> "lc:height", lb |-> Nil]
 Have(C, a) == IF a.lc = "warm" THEN 1..C.tip ELSE {1}
+\* what actually reaches the client: the primary is not even asked for a height already trusted
+EffSent(C, k, a, f) == IF k \in ProviderKinds /\ a.h \in Have(C, a) THEN Honest(C, k, a) ELSE Falsify(C, k, a, f)
 
 \* ------------------------------------------------------------------ (3d) Relay: light/rpc/client.go, check by check
 OK      == [ok |-> TRUE, err |-> "none"]
@@ -504,7 +550,7 @@ LastCommitBound(b) ==
 
 RelayBlock(C, a, r) ==     \* Client.Block / Client.BlockByHash
   IF ~BidBasic(r.block_id) \/ ~BlockBasic(r.block) THEN Rej("basic")
-  ELSE IF r.block_id.hash # HeaderHash(C, r.block.header) THEN Rej("basic")
+  ELSE IF r.block_id.hash # HeaderHash(C, r.block.header) THEN Rej("hash")
   ELSE LET l == LCHonest(C, Have(C, a), r.block.header.height) IN
        IF l.st # "ok" THEN Rej("lc")
        ELSE IF ~Weak_NoTrustedHashCompare /\ HeaderHash(C, r.block.header) # HeaderHash(C, l.lb.header) THEN Rej("hash")
@@ -535,13 +581,14 @@ RelayQuery(C, a, r) ==     \* Client.ABCIQueryWithOptions
 
 RelayResults(C, a, r) ==   \* Client.BlockResults(&h)
   IF r.height <= 0 THEN Rej("basic")
+  \* [repair C20-blockresults] the answer must be about the requested height
+  ELSE IF ~Weak_ResultsHeightUnbound /\ r.height # a.h THEN Rej("hash")
   ELSE LET l == LCHonest(C, Have(C, a), a.h + 1) IN
        IF l.st # "ok" THEN Rej("lc")
        \* [repair C20-blockresults] the header commits to NewResults(DeliverTxs).Hash() only
        ELSE IF Weak_NoResultsHashCompare THEN OK
        ELSE IF Weak_ResultsPreimage THEN Rej("hash")     \* hash of [bbe, results hash, ebe] never equals LastResultsHash
        ELSE IF ResultsHash(r.results) # l.lb.header.lrh THEN Rej("hash")
-       ELSE IF ~Weak_ResultsHeightUnbound /\ r.height # a.h THEN Rej("hash")
        ELSE OK
 
 MaxBlockSize == 104857600
@@ -557,21 +604,26 @@ RelayParams(C, a, r) ==    \* Client.ConsensusParams
        ELSE OK
 
 MetaBasic(C, m) == BidBasic(m.block_id) /\ m.block_id.hash = HeaderHash(C, m.header)
+\* the verification loop over the metas, in order; light.Client.TrustedLightBlock(0) is the LATEST trusted block
+RECURSIVE CheckMetas(_, _, _, _)
+CheckMetas(C, have, metas, i) ==
+  IF i > Len(metas) THEN OK
+  ELSE LET m  == metas[i]
+           mh == m.header.height
+           h  == IF mh = 0 THEN CHOOSE t \in have : \A u \in have : u <= t ELSE mh IN
+       IF h \notin have \/ h \notin 1..C.tip THEN Rej("lc")                 \* TrustedLightBlock: not found
+       ELSE IF ~Weak_NoTrustedHashCompare /\ HeaderHash(C, m.header) # C.blocks[h].bid.hash THEN Rej("hash")
+       ELSE IF ~Weak_NoBlockIDCompare /\ m.block_id # C.blocks[h].bid THEN Rej("hash")
+       ELSE CheckMetas(C, have, metas, i + 1)
 RelayInfo(C, a, r) ==      \* Client.BlockchainInfo
   IF \E i \in 1..Len(r.metas) : ~MetaBasic(C, r.metas[i]) THEN Rej("basic")
   ELSE IF Len(r.metas) = 0 THEN OK
-  ELSE LET hs   == {r.metas[i].header.height : i \in 1..Len(r.metas)}
-           \* the light client is advanced to the LAST returned meta only -- the lowest height,
-           \* rpc/core returns metas in descending order -- the others must already be trusted
-           ask  == {Last(r.metas).header.height}
-           have == Have(C, a) \cup {h \in ask : LCHonest(C, Have(C, a), h).st = "ok"}
-       IN IF \E h \in ask : LCHonest(C, Have(C, a), h).st # "ok" THEN Rej("lc")
-          ELSE IF \E h \in hs : h \notin have THEN Rej("lc")           \* TrustedLightBlock: not found
-          ELSE IF ~Weak_NoTrustedHashCompare /\ \E i \in 1..Len(r.metas) :
-                    HeaderHash(C, r.metas[i].header) # C.blocks[r.metas[i].header.height].bid.hash THEN Rej("hash")
-          ELSE IF ~Weak_NoBlockIDCompare /\ \E i \in 1..Len(r.metas) :
-                    r.metas[i].block_id # C.blocks[r.metas[i].header.height].bid THEN Rej("hash")
-          ELSE OK
+  ELSE \* the light client is advanced to the LAST returned meta only -- the lowest height, rpc/core
+       \* returns metas in descending order -- the others must already be trusted
+       LET low == Last(r.metas).header.height
+           l   == LCHonest(C, Have(C, a), low) IN
+       IF l.st # "ok" THEN Rej("lc")
+       ELSE CheckMetas(C, Have(C, a) \cup {low}, r.metas, 1)
 
 \* Client.Commit / Client.Validators: answered from the light block itself
 RelayLight(C, a, sent) == LET l == LCGet(C, Have(C, a), a.h, sent) IN
@@ -700,20 +752,25 @@ Uncommitted(k, path) ==
 \* ------------------------------------------------------------------ (4) cases and properties
 \* case = [chain (description id), kind, a (args), f (lie)]
 Lies(C, k, a, ohs) ==
-  LET r == Honest(C, k, a) IN
-  UNION {UNION {{[edits |-> <<[path |-> fl.path, how |-> hw, oh |-> oh]>>, coh |-> coh] :
-                   oh \in IF hw = "other" THEN {o \in ohs : OtherArg(a, o) \in HonestArgs(C, k) /\ HasPath(Honest(C, k, OtherArg(a, o)), fl.path)} ELSE {0}} : hw \in Hows(fl.ty, GetPath(r, fl.path))} :
-         coh \in IF k \in CohKinds THEN {FALSE, TRUE} ELSE {FALSE}, fl \in Fields(k, r)}
+  LET r    == Honest(C, k, a)
+      vohs == {o \in ohs : ValidArg(C, k, OtherArg(a, o))}
+      oth  == [o \in vohs |-> Honest(C, k, OtherArg(a, o))]
+      \* one "other" per field: the lowest height whose honest answer has a DIFFERENT value there
+      ohFor(path) == LET cand == {o \in vohs : HasPath(oth[o], path) /\ GetPath(oth[o], path) # GetPath(r, path)} IN
+                     IF cand = {} THEN {} ELSE {CHOOSE o \in cand : \A q \in cand : o <= q}
+  IN UNION {UNION {{[edits |-> <<[path |-> fl.path, how |-> hw, oh |-> oh]>>, coh |-> coh] :
+                      oh \in IF hw = "other" THEN ohFor(fl.path) ELSE {0}} : hw \in Hows(fl.ty, GetPath(r, fl.path))} :
+            coh \in IF k \in CohKinds THEN {FALSE, TRUE} ELSE {FALSE}, fl \in Fields(k, r)}
 
 \* RelaySound: whatever is handed to the caller is consistent with a verified header.
 \* (the trusted store after the call contains every height the call verified: here all of 1..tip may be
 \*  verified by an honest primary, so T = 1..tip is the weakest assumption)
 RelaySoundCase(C, cs) ==
-  LET sent == Falsify(C, cs.kind, cs.a, cs.f)
+  LET sent == EffSent(C, cs.kind, cs.a, cs.f)
       rl   == Relay(C, cs.kind, cs.a, sent)
   IN rl.ok => Consistent(C, 1..C.tip, cs.kind, cs.a, Returned(C, cs.kind, cs.a, sent))
 RelaySoundStrictCase(C, cs) ==
-  LET sent == Falsify(C, cs.kind, cs.a, cs.f)
+  LET sent == EffSent(C, cs.kind, cs.a, cs.f)
       rl   == Relay(C, cs.kind, cs.a, sent)
   IN rl.ok => ConsistentStrict(C, 1..C.tip, cs.kind, cs.a, Returned(C, cs.kind, cs.a, sent))
 \* RelayComplete: every honest answer is relayed, unchanged
@@ -723,7 +780,7 @@ RelayCompleteCase(C, cs) ==
 \* a relayed single-field lie is either not a lie (the field kept its value), or about an
 \* uncommitted field, or still consistent for a reason Consistent knows (e.g. Merkle shape alias)
 UncommittedOnlyCase(C, cs) ==
-  LET sent == Falsify(C, cs.kind, cs.a, cs.f)
+  LET sent == EffSent(C, cs.kind, cs.a, cs.f)
       rl   == Relay(C, cs.kind, cs.a, sent)
   IN (rl.ok /\ Len(cs.f.edits) = 1 /\ sent # Honest(C, cs.kind, cs.a) /\ cs.kind \in StatementKinds)
         => \/ Uncommitted(cs.kind, cs.f.edits[1].path)
@@ -731,6 +788,23 @@ UncommittedOnlyCase(C, cs) ==
            \/ (cs.kind = "Tx" /\ Under(cs.f.edits[1].path, <<"result">>))                 \* known finding C20-tx-result-unproven
            \/ (cs.kind = "Validators" /\ LastOf(cs.f.edits[1].path) = "addr")             \* known finding C20-validator-address-unbound
            \/ \E a2 \in HonestArgs(C, cs.kind) : sent = Honest(C, cs.kind, a2)              \* a different but genuine answer
+
+\* all four, sharing the evaluation of Falsify / Relay (what the exhaustive config checks)
+CaseOK(C, cs) ==
+  LET k    == cs.kind
+      hon  == Honest(C, k, cs.a)
+      sent == IF cs.f = NoLie THEN hon ELSE EffSent(C, k, cs.a, cs.f)
+      rl   == Relay(C, k, cs.a, sent)
+      ret  == Returned(C, k, cs.a, sent)
+      T    == 1..C.tip
+  IN /\ rl.ok => Consistent(C, T, k, cs.a, ret)                                                   \* RelaySound (+ ExtraSound)
+     /\ (cs.f = NoLie /\ k \in StatementKinds) => (rl.ok /\ ConsistentStrict(C, T, k, cs.a, ret))   \* RelayComplete
+     /\ (rl.ok /\ Len(cs.f.edits) = 1 /\ sent # hon /\ k \in StatementKinds)                       \* UncommittedOnly
+           => \/ Uncommitted(k, cs.f.edits[1].path)
+              \/ (k = "Tx" /\ cs.f.edits[1].path = <<"proof", "proof", "total">>)
+              \/ (k = "Tx" /\ Under(cs.f.edits[1].path, <<"result">>))
+              \/ (k = "Validators" /\ LastOf(cs.f.edits[1].path) = "addr")
+              \/ \E a2 \in HonestArgs(C, k) : sent = Honest(C, k, a2)
 
 \* ServedProofsVerify: the inclusion proof rpc/core serves for tx i of block h verifies
 \* against that block's DataHash and proves that tx at that index
